@@ -104,10 +104,12 @@ func (m *Manager) getEnabledOrPendingKeyVersion(ctx context.Context, parent stri
 				version = v
 			}
 		}
-		if len(vers.GetCryptoKeyVersions()) < keyPageSize {
+		// The listing is complete when the service returns no next-page token. A page may be
+		// shorter than requested although more remain, and the last page may be full.
+		pageToken = vers.GetNextPageToken()
+		if pageToken == "" {
 			break
 		}
-		pageToken = vers.GetNextPageToken()
 	}
 	if version == nil {
 		return nil, ErrNoKeyVersions
